@@ -418,6 +418,29 @@ class World(object):
                 self.rt = roundtrip.run_rt(doc, a["fmt"], a["opts"], self.voc)
                 return none
             return run
+        if op == "Graph":
+            import roundtrip
+            from prov.graph import prov_to_graph, graph_to_prov
+            from project import proj_record, KIND_OF
+            doc = self.h[a["h"]]
+
+            def run():
+                g = prov_to_graph(doc)
+                nodes = []
+                for n in g.nodes():
+                    pr = proj_record(n, self.voc) if hasattr(n, "get_type") and n.get_type() is not None else None
+                    nodes.append({"k": pr["k"] if pr else "?" + type(n).__name__,
+                                  "id": uri_segs(n.identifier.uri) if n.identifier is not None else [],
+                                  "inf": getattr(n, "bundle", None) is None})
+                edges = []
+                for (u, v, data) in g.edges(data=True):
+                    rel = data.get("relation")
+                    edges.append({"s": uri_segs(u.identifier.uri), "d": uri_segs(v.identifier.uri),
+                                  "rel": proj_record(rel, self.voc)})
+                back = graph_to_prov(g)
+                self.graph = {"src": roundtrip.proj_doc(doc, self.voc)}
+                return {"nodes": nodes, "edges": edges, "back": roundtrip.proj_doc(back, self.voc)}
+            return run
         if op == "Export":
             import exports
             doc = self.h[a["h"]]
@@ -579,6 +602,8 @@ class World(object):
         st["look"], st["typed"], st["copy"] = self.lookups()
         if a["op"] == "RT":
             st.update(self.rt)
+        if a["op"] == "Graph" and exc == "none":
+            st.update(self.graph)
         if a["op"] == "Save":
             sv = self.save
             st["exc"] = sv["exc"]
